@@ -133,6 +133,19 @@ func (r *c13Rec) census() {
 	}
 	r.mu.Lock()
 	r.obs.KAAlive, r.obs.Settle = ka, r.us()
+	// A ping beyond the script is ignored by the peer. If it stayed unanswered for a whole
+	// ping timeout before the session ended it is, for the property, a timed-out ping (this
+	// only happens when the implementation's schedule differs from the expected one).
+	end := r.obs.Closed
+	if end < 0 {
+		end = r.obs.UserClose
+	}
+	for i := range r.obs.Pings {
+		p := &r.obs.Pings[i]
+		if p.O == "u" && end >= 0 && end-p.At >= r.obs.I/2 {
+			p.O, p.V = "t", "unscripted"
+		}
+	}
 	r.mu.Unlock()
 }
 
